@@ -239,25 +239,33 @@ def caps (s : S) : List Bytes :=
   (if s.cfg.rrvs then ["RRVS".b] else [])
 
 /-- returns the state and whether a backend callback panicked -/
+def setHelo (s : S) (d : Bytes) : S := { s with c := { s.c with helo := d } }
+
+/-- the reply to an accepted greeting: plain for HELO, the capability list for EHLO/LHLO -/
+def greetReply (s : S) (enhanced : Bool) (domain : Bytes) : S :=
+  if !enhanced then replyB s 250 ⟨2, 0, 0⟩ ["Hello ".b ++ domain]
+  else replyB s 250 noEnh (("Hello ".b ++ domain) :: caps s)
+
+/-- `Backend.NewSession` (only called while there is no session): the session is installed iff it was accepted -/
+def newSession (s : S) (domain : Bytes) : S × BRes :=
+  let (r, s) := popNs s
+  let id := s.c.nextSess
+  let s := { s with c := { s.c with nextSess := id + 1, session := if r == .ok then some id else none } }
+  (emit s (.ns id domain s.c.tls r), r)
+
 def handleGreet (s : S) (enhanced : Bool) (arg : Bytes) : S × Bool :=
   match parseHelloArgument arg with
   | none => (reply s 501 ⟨5, 5, 2⟩ "Domain/address argument required for HELO", false)
   | some domain =>
-    let s := { s with c := { s.c with helo := domain } }
-    let cont (s : S) : S × Bool :=
-      if !enhanced then (replyB s 250 ⟨2, 0, 0⟩ ["Hello ".b ++ domain], false)
-      else (replyB s 250 noEnh (("Hello ".b ++ domain) :: caps s), false)
+    let s := setHelo s domain
     match s.c.session with
-    | some _ => cont (resetConn s)
+    | some _ => (greetReply (resetConn s) enhanced domain, false)
     | none =>
-      let (r, s) := popNs s
-      let id := s.c.nextSess
-      let s := { s with c := { s.c with nextSess := id + 1 } }
-      let s := emit s (.ns id domain s.c.tls r)
+      let (s, r) := newSession s domain
       match r with
-      | .ok => cont { s with c := { s.c with session := some id } }
+      | .ok => (greetReply s enhanced domain, false)
       | .panic => (s, true)
-      | e => (write { s with c := { s.c with helo := [] } } (renderError 451 ⟨4, 0, 0⟩ e), false)
+      | e => (write (setHelo s []) (renderError 451 ⟨4, 0, 0⟩ e), false)
 
 /-! ### MAIL -/
 
@@ -316,6 +324,20 @@ def mailParams (cfg : Cfg) : List (Bytes × Bytes) → MailOpts → Bool → POu
       | none => .refuse 500 ⟨5, 5, 4⟩ "Malformed AUTH parameter value"
     else .refuse 500 ⟨5, 5, 4⟩ "Unknown MAIL FROM argument"
 
+/-- the `Session.Mail` call and the reply to it -/
+def mailCall (s : S) (id : Nat) (frm : Bytes) (opts : MailOpts) : S × Bool :=
+  let (r, s) := popMail s
+  let s := emit s (.mail id frm opts r)
+  match r with
+  | .ok =>
+    -- (the Go code sets the flag after writing the reply; nothing can observe the order)
+    let s := { s with c := { s.c with fromReceived := true } }
+    (replyB s 250 ⟨2, 0, 0⟩ ["Roger, accepting mail from <".b ++ frm ++ ">".b], false)
+  | .panic => (s, true)
+  | e => (write s (renderError 451 ⟨4, 0, 0⟩ e), false)
+
+def setBinarymime (s : S) (b : Bool) : S := { s with c := { s.c with binarymime := b } }
+
 def handleMail (s : S) (arg : Bytes) : S × Bool :=
   if s.c.helo.isEmpty then (reply s 502 ⟨5, 5, 1⟩ "Please introduce yourself first.", false)
   else if s.c.bdat.isSome then (reply s 502 ⟨5, 5, 1⟩ "MAIL not allowed during message transfer", false)
@@ -329,23 +351,12 @@ def handleMail (s : S) (arg : Bytes) : S × Bool :=
         match parseArgs rest with
         | none => (reply s 501 ⟨5, 5, 4⟩ "Unable to parse MAIL ESMTP parameters", false)
         | some args =>
-          let s := { s with c := { s.c with binarymime := false } }
           match mailParams s.cfg args {} false with
-          | .refuse code enh text => (reply s code enh text, false)
+          | .refuse code enh text => (reply (setBinarymime s false) code enh text, false)
           | .ok (opts, bm) =>
-            let s := { s with c := { s.c with binarymime := bm } }
             match s.c.session with
-            | none => (s, true)          -- nil session: the method call panics
-            | some id =>
-              let (r, s) := popMail s
-              let s := emit s (.mail id frm opts r)
-              match r with
-              | .ok =>
-                -- (the Go code sets the flag after writing the reply; nothing can observe the order)
-                let s := { s with c := { s.c with fromReceived := true } }
-                (replyB s 250 ⟨2, 0, 0⟩ ["Roger, accepting mail from <".b ++ frm ++ ">".b], false)
-              | .panic => (s, true)
-              | e => (write s (renderError 451 ⟨4, 0, 0⟩ e), false)
+            | none => (setBinarymime s bm, true)          -- nil session: the method call panics
+            | some id => mailCall (setBinarymime s bm) id frm opts
 
 /-! ### RCPT -/
 
